@@ -50,6 +50,7 @@ def corpus() -> list[tuple[str, str]]:
                    "lambda s, encoding='utf-8', errors='strict': s", "lambda *, key='a.b': key",
                    "lambda **k: k", "lambda x, /, y, *a, z=1, **k: x", "lambda x, /, *, z: x", "lambda x=1, /, y=2: x"],
         "Call": ["f()", "f(a)", "f(a, b)", "f(a=1)", "f(*a)", "f(**k)", "f(a, *b, c=1, **d)", "f(x for x in a)", "f(a)(b)",
+                 "f((x for x in a), k=1)", "f((x for x in a), **k)", "f((x for x in a), b)", "f(b, (x for x in a))", "f((x for x in a), *b)", "f(k=(x for x in a))",
                  "f(a=g(b=1))", "f(**g(b=1))", "f(a, k=g(h(j=1), m=2))", "f(a=lambda: g(b=1))"],
         "Subscript": ["a[0]", "a[b]", "a[b, c]", "a[1:2]", "a[1:2:3]", "a[:]", "a[::2]", "a[1:]", "a[:2]", "a[1:2, ::3]", "a[(b, c)]", "a[b][c]", "a[*b]", "a[()]", "a[b,]", "a[(b,), c]", "a[1:2,]"],
         "Tuple": ["()", "(a,)", "(a, b)", "a, b"], "List": ["[]", "[a]", "[a, b]", "[*a, b]"], "Set": ["{a}", "{a, b}", "{*a, b}"],
